@@ -53,3 +53,51 @@ Proof.
   exists (mkAttrs None None None None None None None (Some "true")), [Fin 1; Fin 2].
   vm_compute. split; reflexivity.
 Qed.
+
+(* F07g (before handoff/C07-fix2-3.diff): an attribute that cannot be cast safely
+   (valid_min = 70000 on an i2 variable) is ignored by the masked read, as the netCDF
+   library does, but was used by apply_masking; the repaired code reproduces the read. *)
+Theorem C07_old_apply_masking_unsafe_attribute_refuted :
+  exists d A raw, not_packed d A false = true /\
+    apply_masking_model_old d A false raw <> Ok (read_model d A true false raw) /\
+    apply_masking_model d A false raw = Ok (read_model d A true false raw).
+Proof.
+  exists I2, (mkAttrs None None None (Some (ANum I4 [Fin 70000])) None None None None), [Fin 1; Fin 2].
+  vm_compute. split; [reflexivity|split; [discriminate|reflexivity]].
+Qed.
+
+(* F07h (before fix2-3): valid_range together with valid_min: the read uses valid_range,
+   apply_masking raised ValueError. *)
+Theorem C07_old_apply_masking_range_and_min_refuted :
+  exists d A raw, not_packed d A false = true /\
+    apply_masking_model_old d A false raw = Err ValueErr /\
+    apply_masking_model d A false raw = Ok (read_model d A true false raw) /\
+    snd (read_model d A true false raw) = [None; Some (Fin 2); Some (Fin 3)].
+Proof.
+  exists I2, (mkAttrs None None (Some (ANum I2 [Fin 2; Fin 4])) (Some (ANum I2 [Fin 3])) None None None None),
+         [Fin 1; Fin 2; Fin 3].
+  vm_compute. repeat split; reflexivity.
+Qed.
+
+(* before fix2-3 a valid_range of one or three values made apply_masking raise as well;
+   the read falls back on valid_min / valid_max *)
+Theorem C07_old_apply_masking_range_length_refuted :
+  exists d A raw,
+    apply_masking_model_old d A false raw = Err ValueErr /\
+    apply_masking_model d A false raw = Ok (read_model d A true false raw).
+Proof.
+  exists I2, (mkAttrs None None (Some (ANum I2 [Fin 2; Fin 4; Fin 6])) None None None None None),
+         [Fin 1; Fin 2; Fin 3].
+  vm_compute. split; reflexivity.
+Qed.
+
+(* before handoff/C07-fix2-4.diff the interior ring variable of a geometry coordinate was
+   not masked by apply_masking: a never-written (pre-filled) element stayed visible *)
+Theorem C07_old_interior_ring_not_masked_refuted :
+  exists A raw,
+    apply_masking_interior_ring_old I4 A false raw <> Ok (read_model I4 A true false raw) /\
+    apply_masking_model I4 A false raw = Ok (read_model I4 A true false raw).
+Proof.
+  exists (mkAttrs None None None None None None None None), [Fin 0; Fin 1; Fin (-2147483647)].
+  vm_compute. split; [discriminate|reflexivity].
+Qed.
